@@ -46,7 +46,12 @@ def attach():
     except Exception:
         return False
     S = _storage
-    orig = {n: getattr(S, n) for n in ("get_shape_memo", "set_shape_memo", "push_shape_memo", "pop_shape_memo", "get_treepath_memo", "set_treepath_memo", "clear_treepath_memo", "get_treeflatten_memo", "set_treeflatten_memo", "clear_treeflatten_memo")}
+    names = ("get_shape_memo", "set_shape_memo", "push_shape_memo", "pop_shape_memo", "get_treepath_memo", "set_treepath_memo", "clear_treepath_memo", "get_treeflatten_memo", "set_treeflatten_memo", "clear_treeflatten_memo")
+    if not all(callable(getattr(S, n, None)) for n in names) or not all(hasattr(S, a) for a in ("_shape_storage", "_treepath_storage", "_treeflatten_storage")):
+        # an attachment point has been refactored away: no shadow monitor, the black-box oracles decide alone
+        attached = False
+        return False
+    orig = {n: getattr(S, n) for n in names}
 
     def get_shape_memo():
         out = orig["get_shape_memo"]()
